@@ -7,6 +7,6 @@ QuickFull == {<<Wr(2), Rd(2), Rd(2)>>}
 Thorough1 == {<<Wr(2), Wr(2), Rd(2), Rd(2)>>}
 Thorough2 == {<<Wr(2), Rd(2), Rd(2), Rd(2)>>, <<Wr(3), Wr(3), Rd(2)>>}
 ConfProgs == {<<Wr(1), Rd(1), Rd(1)>>, <<Wr(1), Wr(1), Rd(1)>>}
-LiveProgs == {<<Wr(1), Wr(1), Rd(2), Rd(2)>>}
+LiveProgs == {<<Wr(1), Rd(1), <<<<1>>>>, <<>>>>, <<Wr(1), Wr(1), <<<<1>>>>, <<>>>>}
 ThrowProgs == {<<Wr(2), Rd(2), Rd(1)>>, <<Wr(1), Wr(1), Rd(2)>>}
 =============================================================================
